@@ -7,7 +7,7 @@ Correspondence with lean/EdzedModel/ExtEvent.lean (+ the life-cycle model of Err
     is_ready() after every life-cycle step, exception or the data recorded by the destination are compared;
   * 'names' scenarios: blocks named in every possible way (user names, automatic names of arbitrary classes,
     _ctrl, _not_NAME, _cron_*) send internal events; names and the sources seen by a probe are compared.
-  * 'ctor' scenarios (lean/EdzedModel/Ctor.lean): the constructors themselves -- Block / SBlock / CBlock with every
+  * 'ctor' scenarios (lean/EdzedModel/BlkCtor.lean): the constructors themselves -- Block / SBlock / CBlock with every
     kind of name, `_reserved`, comment, debug, x_ / X_ / refused keywords, initdef with and without
     init_from_value (real method, the two dummies, a data attribute, a property that raises), classes deriving from each other (automatic
     names count the instances of the class), duplicates, a finalized / aborted circuit; ExtEvent with positional
